@@ -181,8 +181,8 @@ impl SemanticState {
             let alignment: usize = alignment.with_context(|| {
                 format!("failed to find `align` attribute for extern type `{extern_path}` in module `{path}`")
             })?;
-            if alignment == 0 {
-                anyhow::bail!("the `align` attribute of extern type `{extern_path}` in module `{path}` must not be zero");
+            if !alignment.is_power_of_two() {
+                anyhow::bail!("the `align` attribute of extern type `{extern_path}` in module `{path}` must be a power of two");
             }
 
             let extern_path = path.join(extern_path.as_str().into());
